@@ -191,9 +191,15 @@ def run(ctx):
     si = sym.summarize(repo, init.qualname)
     for attr, solver, callee in (("forces", "solve_stress", f"{FM}.solve"), ("pressures", "solve_pressure", "forsys.general_matrix.GeneralMatrix.solve_system")):
         st = [e for e in si.stores(attr) if e.base == SELF and not e.sub]
-        b = ("bv", 0)
-        want = T.call("dict", (("map", T.seq((b, T.NONE)), b, T.call("range", (T.call("len", (T.attr(SELF, "frames"),)),)), T.TRUE),))
-        ok = len(st) == 1 and T.alpha(st[0].value) == T.alpha(want)
+        # every way the dictionary gets its initial content (comprehension, or {} followed by stores in a loop): one entry per frame
+        # position with the value None, nothing else
+        ents = [e for e in rules.entries(si, attr=attr) if e.coll is None or e.coll == T.attr(SELF, attr) or True]
+        frames_len = T.call("range", (T.call("len", (T.attr(SELF, "frames"),)),))
+        ok = bool(ents) and len(st) == 1 and (st[0].value == ("dict", ()) or (st[0].value[0] == "call" and st[0].value[1] == "dict"))
+        for e in ents:
+            lp = e.loops()
+            okl = bool(lp) and lp[-1][2] == frames_len and e.key == ("bv", lp[-1][1]) and e.elem == T.NONE and not e.conds()
+            ok = ok and okl
         ctx.check(ok, "KIND", f"{init.qualname} / KIND / self.{attr} created as {{frame index: None}}", ctx.where(init),
                   "dict keyed by frame index", f"self.{attr} is initialised as {T.show(T.alpha(st[0].value))[:120] if st else 'nothing'}")
         writers = {f"{FS}.__post_init__": "creates the per-frame dict", f"{FS}.{solver}": "element store under the frame key"}
